@@ -638,6 +638,11 @@ class Cov(SingleAggregation):
     chunk = staticmethod(_cov_chunk)
     std = False
 
+    def _simplify_up(self, parent, dependents):
+        # Every column of the result is computed from all columns of the
+        # input (they label its rows): a selection cannot be pushed below
+        return
+
     @classmethod
     def combine(cls, g, levels):
         return _concat(g)
